@@ -764,6 +764,8 @@ func (f *transformationCallable) updateEntries(item reflect.Value) error {
 		return newEvalError(ErrIllegalUpdate, f.updates, nil)
 	}
 
+	updates = jtypes.Resolve(updates)
+
 	for _, key := range updates.MapKeys() {
 		item.SetMapIndex(key, updates.MapIndex(key))
 	}
